@@ -18,7 +18,7 @@ CHECKS={
         "Trusted: the harness' reading of which sequences each model documents as admissible (arr.rs events()).",
         "DESIGN.md section 4 (C10), 3.1"),
  "C11":("property-based testing (proptest): generated arrival/request bounds vs. brute-force increase points",
-        "For generated arrival bounds of every kind (incl. plateau-ended prefixes, jitter > period, derived/converted curves, prefixes, composites) and request bounds over 1-4 components with positive costs, the sequence yielded by steps_iter up to a horizon of several prefix repetitions is compared element-wise with the brute-force set {delta : f(delta-1) < f(delta)}; step_offsets = steps - 1. Known finding (leading 0 of a direct ArrivalCurvePrefix, pinned by the crate's test) is matched by an exact signature and excluded, everything else about such cases is still checked. Exploration.",
+        "For generated arrival bounds of every kind (incl. plateau-ended prefixes, jitter > period, derived/converted curves, prefixes, composites) and request bounds over 1-4 components with positive costs, the sequence yielded by steps_iter up to a horizon of several prefix repetitions is compared element-wise with the brute-force set {delta : f(delta-1) < f(delta)}; step_offsets = steps - 1. Stateful sub-check curve-history: a generated sequence of iterator pulls, queries, in-place extensions (extrapolate, extrapolate_steps), clones and jittered clones on one arrival::Curve, the same comparison after every operation. Known finding (leading 0 of a direct ArrivalCurvePrefix, pinned by the crate's test) is matched by an exact signature and excluded, everything else about such cases is still checked. Exploration.",
         "Trusted: number_arrivals / service_needed as the definition of 'the bound' (their own correctness is C10/C12/C16).",
         "DESIGN.md section 4 (C11)"),
  "C12":("property-based testing (proptest): generated traces and sub-additive source models vs. window counting / pointwise dominance and prefix equality / duality",
@@ -34,7 +34,7 @@ CHECKS={
         "Trusted: sliding-window sums over the raw trace.",
         "DESIGN.md section 4 (C14)"),
  "C15":("property-based testing (proptest): generated (rate, delta, epsilon) vs. an independent high-accuracy Poisson quantile / pmf",
-        "Means from 10^-3 to ~2500 (quick) / ~5000 (thorough), epsilon from 10^-6 to 0.5: the returned n must lie in the quantile band for 1-epsilon -/+ 1e-7 computed by an independent ratio-recurrence evaluation with a right-to-left tail sum; zero at zero, monotone in delta, arrival_probability within 1e-6 relative of the pmf; termination through a deterministic step budget (hook). Exploration.",
+        "Means from 10^-3 to ~2500 (quick) / ~5000 (thorough), epsilon from 10^-6 to 0.5: the returned n must lie in the quantile band for 1-epsilon -/+ 1e-7 computed by an independent ratio-recurrence evaluation with a right-to-left tail sum; zero at zero, monotone in delta, arrival_probability within 1e-6 relative of the pmf; termination through a deterministic step budget (hook). Sub-check instances: several approximations of one process (same rate, different epsilon) queried in a generated order in one thread, each answer against the band of the instance asked. Exploration.",
         "Trusted: the harness' reference pmf (Stirling series for ln k!, ratio recurrence) and the stated float tolerances.",
         "DESIGN.md section 4 (C15)"),
  "C16":("property-based testing (proptest): generated component models and aggregation shapes vs. recomputation from separately built components",
@@ -74,7 +74,7 @@ CHECKS={
         "Trusted: the harness' transcription of Lemmas 1,3,4/5,8 and Def. 1-3,5, Lemma 18, Theorems 2/3 (0 mismatches on the unchanged tree); request/arrival/cost bounds as black boxes; cost models that are valid bounds on every run of consecutive jobs.",
         "DESIGN.md section 4 (C07), 3.6"),
  "C17":("property-based testing (proptest), metamorphic: generated base systems and single-parameter hardenings",
-        "For the nine uniprocessor analyses and the six ROS 2 analyses (scalar costs), a generated base call is compared with the same call after one hardening (WCET, jitter, blocking, non-preemptive segment, period, added task/callback, weaker supply, limit): the bound must not decrease, Err must stay Err, a larger limit must reproduce an Ok exactly. Exploration.",
+        "For the nine uniprocessor analyses and the six ROS 2 analyses (scalar costs), a generated base call is compared with the same call after one hardening (WCET, jitter, blocking, non-preemptive segment, period, added task/callback, weaker supply, limit): the bound must not decrease, Err must stay Err, a larger limit must reproduce an Ok exactly. Sub-check uniprocessor-scaled: the same relation with every time value multiplied by 20011 / 100003 and the limit placed at a generated fraction of the harder system's bound (limits above 10^5). Exploration.",
         "Trusted: which changes count as hardenings (DESIGN.md: the analysed task's own last segment is excluded).",
         "DESIGN.md section 4 (C17)"),
  "C19":("property-based testing (proptest), differential: pairs of analyses on their common special cases",
